@@ -9,23 +9,27 @@ Import ListNotations.
 
 (* ---- hole lemmas (C01_holes, per class, on the complement of the recorded classes) ---- *)
 
-(* property keys: the templates never quote, so a key hole is good exactly when the serialized name is
-   an identifier name (or a number): the class kf_bare_key is precisely the complement *)
-Theorem C01_key_hole_iff : forall name rename rename_all dflt,
-  hole_ok HKey (serialized name rename rename_all dflt) = negb (kf_bare_key name rename rename_all dflt).
-Proof. exact key_hole_iff. Qed.
+(* property keys: since the repair of C01-bare-key every serde / parameter name printed in a key position goes
+   through the ts_key filter. For EVERY byte string the printed key is an identifier name or a well-formed
+   double-quoted literal, and the member access is .name or a bracket access with a well-formed literal *)
+Theorem C01_key_chunk_ok : forall k, holes_ok [key_chunk k] = true.
+Proof. exact key_chunk_ok. Qed.
+Theorem C01_member_access_ok : forall k, holes_ok (member_access k) = true.
+Proof. exact member_access_ok. Qed.
 
-(* no explicit rename, effective convention not kebab: identifiers stay identifiers *)
-Theorem C01_key_hole_no_rename : forall name rename_all dflt,
+(* no explicit rename, effective convention not kebab: the key stays bare (output unchanged by the repair) *)
+Theorem C01_key_bare_no_rename : forall name rename_all dflt,
   plain_ident name = true -> kebab_rule (eff_rule rename_all dflt) = false ->
-  hole_ok HKey (serialized name None rename_all dflt) = true.
-Proof. exact key_hole_no_rename. Qed.
+  key_chunk (serialized name None rename_all dflt) = Hole HKey (serialized name None rename_all dflt).
+Proof. exact key_bare_no_rename. Qed.
 
-Theorem C01_key_hole_refuted :
-  hole_ok HKey (serialized (L "full_name") (Some (scanned (L "full-name"))) None (L "snake_case")) = false /\
-  hole_ok HKey (serialized (L "first_name") None (Some RKebab) (L "snake_case")) = false /\
-  hole_ok HKey (serialized (L "r#type") None None (L "camelCase")) = false.
-Proof. exact key_hole_refuted. Qed.
+(* the old witnesses of C01-bare-key and C01-raw-ident, now positive *)
+Theorem C01_key_chunk_witnesses :
+  key_chunk (serialized (L "full_name") (Some (scanned (L "full-name"))) None (L "snake_case")) = Hole (HStr DQ) (L "full-name") /\
+  key_chunk (serialized (L "first_name") None (Some RKebab) (L "snake_case")) = Hole (HStr DQ) (L "first-name") /\
+  key_chunk (serialized (unraw (L "r#type")) None None (L "camelCase")) = Hole HKey (L "type") /\
+  member_access (L "on-event") = [F "["; Hole (HStr DQ) (L "on-event"); F "]"].
+Proof. exact key_chunk_witnesses. Qed.
 
 (* declared function names of command wrappers *)
 Theorem C01_fn_hole : forall name,
@@ -33,9 +37,11 @@ Theorem C01_fn_hole : forall name,
 Proof. exact fn_hole. Qed.
 
 Theorem C01_fn_hole_refuted :
-  hole_ok HFn (camel2 (L "delete")) = false /\ hole_ok HFn (camel2 (L "r#match")) = false /\
+  hole_ok HFn (camel2 (L "delete")) = false /\ hole_ok HFn (camel2 (unraw (L "r#in"))) = false /\
   hole_ok HFn (camel2 (L "_2fa")) = false.
 Proof. exact fn_hole_refuted. Qed.
+Theorem C01_fn_hole_raw_witness : camel2 (unraw (L "r#match")) = L "match" /\ hole_ok HFn (camel2 (unraw (L "r#match"))) = true.
+Proof. exact fn_hole_raw_witness. Qed.
 
 (* listener names: since the repair of C01-event-fn (every non-alphanumeric character of the event name
    becomes an underscore before PascalCase) the declared name is a legal identifier for EVERY event name *)
@@ -56,19 +62,27 @@ Theorem C01_str_hole_event : forall name, forallb event_char name = true -> hole
 Proof. exact str_hole_event. Qed.
 Theorem C01_str_hole_message : forall m, hole_ok (HStr DQ) (escape_js m) = true.
 Proof. exact str_hole_message. Qed.
-Theorem C01_str_hole_refuted :
-  hole_ok (HStr DQ) (scanned (L "a""b")) = false /\ bad_class (HStr DQ) (scanned (L "a""b")) = Some "C01-literal-backslash"%string.
-Proof. exact str_hole_refuted. Qed.
+(* enum literals are escaped since the repair of C01-literal-backslash: old witness, now well formed *)
+Theorem C01_str_hole_enum_witness :
+  escape_js (scanned (L "a""b")) = L "a\\" /\ hole_ok (HStr DQ) (escape_js (scanned (L "a""b"))) = true.
+Proof. exact str_hole_enum_witness. Qed.
 
-(* type holes: the two recorded leaks, computed by the faithful model *)
+(* type holes: the remaining leak (path-qualified types), computed by the faithful model *)
 Theorem C01_type_hole_refuted :
-  let r1 := QPath [] (L "Result") true [QPath [] (L "HashMap") true [T0 "String"; T0 "User"]; T0 "String"] in
   let r2 := QPath [] (L "Result") true [QPath [L "crate"; L "models"] (L "User") false []; T0 "String"] in
-  let c1 := {| cc_name := L "f"; cc_serde := []; cc_params := []; cc_ret := Some r1 |} in
   let c2 := {| cc_name := L "f"; cc_serde := []; cc_params := []; cc_ret := Some r2 |} in
-  ret_text g0 c1 = L "types.HashMap<String" /\ hole_ok HType (ret_text g0 c1) = false /\
   ret_text g0 c2 = L "types.crate::models::User" /\ hole_ok HType (ret_text g0 c2) = false.
 Proof. exact type_hole_refuted. Qed.
+(* old witnesses of C01-half-generic and C01-prefix-tuple under the repaired splitting / prefixing *)
+Theorem C01_type_hole_witnesses :
+  let r1 := QPath [] (L "Result") true [QPath [] (L "HashMap") true [T0 "String"; T0 "User"]; T0 "String"] in
+  let r3 := QPath [] (L "Vec") true [QTuple [T0 "String"; T0 "i32"]] in
+  let c1 := {| cc_name := L "f"; cc_serde := []; cc_params := []; cc_ret := Some r1 |} in
+  let c3 := {| cc_name := L "f"; cc_serde := []; cc_params := []; cc_ret := Some r3 |} in
+  ret_text g0 c1 = L "Record<string, User>" /\ hole_ok HType (ret_text g0 c1) = true /\
+  ret_text g0 c3 = L "[string, number][]" /\ hole_ok HType (ret_text g0 c3) = true /\
+  hole_ok HZ (field_schema g0 {| cf_name := L "pair"; cf_ty := QTuple [T2 "HashMap" (T0 "String") (T0 "i32"); T0 "bool"]; cf_serde := []; cf_val := None |}) = true.
+Proof. exact type_hole_witnesses. Qed.
 
 (* ---- skeleton (token level, plain-mode types.ts interface template) ---- *)
 Theorem C01_skeleton_interface_partial : forall name ms rest,
@@ -88,7 +102,7 @@ Definition C01_lex_compositional_full_statement : Prop :=
 
 (* ---- non-vacuity ---- *)
 Example C01_ex_key : plain_ident (L "user_id") = true /\ kebab_rule (eff_rule (Some RCamel) (L "snake_case")) = false /\
-  serialized (L "user_id") None (Some RCamel) (L "snake_case") = L "userId".
+  key_chunk (serialized (L "user_id") None (Some RCamel) (L "snake_case")) = Hole HKey (L "userId").
 Proof. vm_compute. repeat split. Qed.
 Example C01_ex_event_fn : event_fn (L "user:created/now") = L "onUserCreatedNow" /\ event_fn (L "app://ready") = L "onAppReady".
 Proof. exact event_fn_example. Qed.
@@ -103,16 +117,19 @@ Example C01_ex_skeleton : c01_ok (text (interface_chunks g0 ex_struct)) = true /
   lexed (interface_chunks g0 ex_struct) = toks_of (interface_chunks g0 ex_struct).
 Proof. vm_compute. repeat split. Qed.
 
-Print Assumptions C01_key_hole_iff.
-Print Assumptions C01_key_hole_no_rename.
-Print Assumptions C01_key_hole_refuted.
+Print Assumptions C01_key_chunk_ok.
+Print Assumptions C01_member_access_ok.
+Print Assumptions C01_key_bare_no_rename.
+Print Assumptions C01_key_chunk_witnesses.
 Print Assumptions C01_fn_hole.
 Print Assumptions C01_fn_hole_refuted.
+Print Assumptions C01_fn_hole_raw_witness.
 Print Assumptions C01_event_fn_hole.
 Print Assumptions C01_tyname_hole.
 Print Assumptions C01_str_hole_command.
 Print Assumptions C01_str_hole_event.
 Print Assumptions C01_str_hole_message.
-Print Assumptions C01_str_hole_refuted.
+Print Assumptions C01_str_hole_enum_witness.
 Print Assumptions C01_type_hole_refuted.
+Print Assumptions C01_type_hole_witnesses.
 Print Assumptions C01_skeleton_interface_partial.
